@@ -24,84 +24,97 @@ Definition w_kind (k : ekind) : wtok :=
               | KMultiTag => 105 | KFeature => 106 | KSource => 107 | KSection => 108
               | KProperty => 109 end).
 
+(* The walk reads the store only through these five leaf observations; two stores on which
+   they agree have the same walk (Proofs/WalkProofs.v). *)
+Record view := mkView {
+  v_attr : addr -> str -> list wtok;              (* an attribute *)
+  v_link : addr -> str -> list wtok;              (* optional single link: target id / None *)
+  v_link_req : addr -> str -> list wtok;          (* required single link: target id / error *)
+  v_payload : addr -> str -> list wtok;           (* content of a child dataset *)
+  v_list : addr -> str -> list (tok * addr);      (* the links of a child group, in order *)
+}.
+
+Definition view_of (s : store) : view :=
+  mkView
+    (fun a k => w_attr s a k)
+    (fun a role => match child s a (TS role) with
+                   | Some x => [w_opt_tok (entity_id s x)]
+                   | None => [WNone]
+                   end)
+    (fun a role => match child s a (TS role) with
+                   | Some x => [w_opt_tok (entity_id s x)]
+                   | None => [m_err]
+                   end)
+    (fun a dname => match child s a (TS dname) with
+                    | Some c => w_attr s c s_value
+                    | None => [WNone]
+                    end)
+    (fun a cn => cont_links s (child s a (TS cn))).
+
+(* nesting depth of sources / sections the walk follows (deeper trees end in an error token;
+   the generators stay far below) *)
+Definition walk_fuel : nat := 48.
+
 Section Walk.
   Variable with_times : bool.
-  Variable s : store.
+  Variable v : view.
 
   Definition w_times (a : addr) : list wtok :=
-    if with_times then w_attr s a k_created ++ w_attr s a k_updated else [].
+    if with_times then v_attr v a k_created ++ v_attr v a k_updated else [].
 
   (* kind, name, id, type, definition [, created_at, updated_at] *)
   Definition w_header (k : ekind) (a : addr) : list wtok :=
-    [m_open; w_kind k] ++ w_attr s a k_name ++ w_attr s a k_id ++ w_attr s a k_type
-    ++ w_attr s a k_definition ++ w_times a.
+    [m_open; w_kind k] ++ v_attr v a k_name ++ v_attr v a k_id ++ v_attr v a k_type
+    ++ v_attr v a k_definition ++ w_times a.
 
-  (* a single link: the id of its target, or None *)
-  Definition w_link (a : addr) (role : str) : list wtok :=
-    match child s a (TS role) with
-    | Some x => [w_opt_tok (entity_id s x)]
-    | None => [WNone]
-    end.
-  (* a link whose accessor raises when it is missing (Feature.data, MultiTag.positions) *)
-  Definition w_link_req (a : addr) (role : str) : list wtok :=
-    match child s a (TS role) with
-    | Some x => [w_opt_tok (entity_id s x)]
-    | None => [m_err]
-    end.
   (* a list of links: ids of the targets, in order *)
   Definition w_linklist (a : addr) (role : str) : list wtok :=
-    let ls := cont_links s (child s a (TS role)) in
-    m_open :: map (fun p => w_opt_tok (entity_id s (snd p))) ls ++ [m_close].
-  Definition w_payload (a : addr) (dname : str) : list wtok :=
-    match child s a (TS dname) with
-    | Some c => w_attr s c s_value
-    | None => [WNone]
-    end.
+    m_open :: flat_map (fun p => v_attr v (snd p) k_id) (v_list v a role) ++ [m_close].
   Definition w_children (a : addr) (cn : str) (f : addr -> list wtok) : list wtok :=
-    m_open :: flat_map (fun p => f (snd p)) (cont_links s (child s a (TS cn))) ++ [m_close].
+    m_open :: flat_map (fun p => f (snd p)) (v_list v a cn) ++ [m_close].
 
   Definition w_feature (a : addr) : list wtok :=
-    [m_open; w_kind KFeature] ++ w_attr s a k_id ++ w_attr s a s_link_type
-    ++ w_link_req a s_data ++ w_times a ++ [m_close].
+    [m_open; w_kind KFeature] ++ v_attr v a k_id ++ v_attr v a s_link_type
+    ++ v_link_req v a s_data ++ w_times a ++ [m_close].
   Definition w_group (a : addr) : list wtok :=
-    w_header KGroup a ++ w_link a s_metadata ++ w_linklist a s_data_arrays ++ w_linklist a s_tags
+    w_header KGroup a ++ v_link v a s_metadata ++ w_linklist a s_data_arrays ++ w_linklist a s_tags
     ++ w_linklist a s_multi_tags ++ w_linklist a s_sources ++ [m_close].
   Definition w_data_array (a : addr) : list wtok :=
-    w_header KDataArray a ++ w_attr s a s_label ++ w_attr s a s_unit ++ w_payload a s_data
-    ++ w_link a s_metadata ++ w_linklist a s_sources ++ [m_close].
+    w_header KDataArray a ++ v_attr v a s_label ++ v_attr v a s_unit ++ v_payload v a s_data
+    ++ v_link v a s_metadata ++ w_linklist a s_sources ++ [m_close].
   Definition w_tag (a : addr) : list wtok :=
-    w_header KTag a ++ w_payload a s_position ++ w_link a s_metadata ++ w_linklist a s_references
+    w_header KTag a ++ v_payload v a s_position ++ v_link v a s_metadata ++ w_linklist a s_references
     ++ w_linklist a s_sources ++ w_children a s_features w_feature ++ [m_close].
   Definition w_multi_tag (a : addr) : list wtok :=
-    w_header KMultiTag a ++ w_link_req a s_positions ++ w_link a s_extents ++ w_link a s_metadata
+    w_header KMultiTag a ++ v_link_req v a s_positions ++ v_link v a s_extents ++ v_link v a s_metadata
     ++ w_linklist a s_references ++ w_linklist a s_sources
     ++ w_children a s_features w_feature ++ [m_close].
   Definition w_property (a : addr) : list wtok :=
-    [m_open; w_kind KProperty] ++ w_attr s a k_name ++ w_attr s a k_id ++ w_attr s a s_value
+    [m_open; w_kind KProperty] ++ v_attr v a k_name ++ v_attr v a k_id ++ v_attr v a s_value
     ++ w_times a ++ [m_close].
 
   Fixpoint w_source (fuel : nat) (a : addr) : list wtok :=
     match fuel with
     | O => [m_err]
-    | S f => w_header KSource a ++ w_link a s_metadata ++ w_children a s_sources (w_source f) ++ [m_close]
+    | S f => w_header KSource a ++ v_link v a s_metadata ++ w_children a s_sources (w_source f) ++ [m_close]
     end.
   Fixpoint w_section (fuel : nat) (a : addr) : list wtok :=
     match fuel with
     | O => [m_err]
-    | S f => w_header KSection a ++ w_attr s a s_repository ++ w_attr s a s_reference
-             ++ w_link a s_link ++ w_children a s_properties w_property
+    | S f => w_header KSection a ++ v_attr v a s_repository ++ v_attr v a s_reference
+             ++ v_link v a s_link ++ w_children a s_properties w_property
              ++ w_children a s_sections (w_section f) ++ [m_close]
     end.
   Definition w_block (a : addr) : list wtok :=
-    let fuel := S (length (nodes s)) in
-    w_header KBlock a ++ w_link a s_metadata ++ w_children a s_groups w_group
+    w_header KBlock a ++ v_link v a s_metadata ++ w_children a s_groups w_group
     ++ w_children a s_data_arrays w_data_array ++ w_children a s_tags w_tag
-    ++ w_children a s_multi_tags w_multi_tag ++ w_children a s_sources (w_source fuel) ++ [m_close].
-  Definition walk : list wtok :=
-    let fuel := S (length (nodes s)) in
+    ++ w_children a s_multi_tags w_multi_tag ++ w_children a s_sources (w_source walk_fuel) ++ [m_close].
+  Definition walk_v : list wtok :=
     [m_open; w_kind KFile] ++ w_children 0%nat s_data w_block
-    ++ w_children 0%nat s_metadata (w_section fuel) ++ [m_close].
+    ++ w_children 0%nat s_metadata (w_section walk_fuel) ++ [m_close].
 End Walk.
+
+Definition walk (with_times : bool) (s : store) : list wtok := walk_v with_times (view_of s).
 
 (* ---- digest: polynomial hash mod 2^61-1; generated ids are renamed by first appearance over
    the whole trace (the renaming table is threaded through) *)
